@@ -892,6 +892,12 @@ def c13_jobs():
                 d.update({"P0": p[0], "P1": p[1], "P2": p[2], "P3": p[3]})
             q = (p is None or p == (3, 3, 3, 3)) and s in ((1, 2, 0, 3), (2, 1, 3, 0), (0, 0, 0, 0))
             add(d, "quick" if q else "thorough")
+    # capture-module status: length fields whose low byte is >= 0x80 and lengths that need the high byte (a length read or written
+    # through a signed char / a single byte shows only there)
+    for (s_, v, tier) in (((127, 0, 0, 0), 0, "quick"), ((0, 0, 0, 0), 128, "quick"), ((0, 0, 0, 0), 200, "thorough"), ((0, 130, 0, 0), 1, "thorough"), ((0, 0, 0, 255), 0, "quick"),
+                          ((0, 0, 256, 0), 0, "thorough"), ((0, 0, 0, 0), 256, "quick"), ((0, 0, 0, 0), 400, "thorough")):
+        jobs.append(Job("c13.cpp", "h_build", defs={"CLS": 6, "S0": s_[0], "S1": s_[1], "S2": s_[2], "S3": s_[3], "V": v, "PV": -1, "DMAX": 512, "MSGMAX": 480}, unwind=520, in_max=sum(s_) + v + 48, mem_gb=4, tier=tier,
+                        sym="all string characters (non-NUL) and vendor bytes, uptime, gPTP flags", outside="strings / vendor data beyond 400 bytes; re-set priors at these sizes"))
     # interface status: count / vendor-length parities, re-set after longer / shorter
     for n in (0, 1, 2, 3, 5):
         for v in (0, 1, 2, 3):
